@@ -38,8 +38,9 @@ def gen(rng, tier):
         alpha = rng.choice([1, 1, 0])
         sym = AA if alpha == 0 else NT
         n = rng.randint(1, 5)
-        L = rng.randint(1, 9)
-        rows = [("s%d" % i, "".join(rng.choice(sym) for _ in range(L))) for i in range(n)]
+        L = rng.randint(1, 12)
+        gaps = "-" * rng.choice([0, 0, 3, 8])
+        rows = [("s%d" % i, "".join(rng.choice(sym + gaps) for _ in range(L))) for i in range(n)]
         rs = rows_str(rows)
         big = n >= 2 and L >= 2
         for q in ("writers", "stats", "coords", "copies", "dist", "sw"):
